@@ -303,11 +303,19 @@ def paused_revoke_variants(b):
     return out
 
 
-def tlc_many(keys, **kw):
-    """Runs the TLC configs two at a time with half of the worker budget each (never more than WORKERS TLC workers in total)."""
+def tlc_many(keys, big=None, **kw):
+    """Runs the TLC configs in two lanes, never more than WORKERS TLC workers in total: two at a time with half of the budget each,
+    or - when one config dominates (big) - that one with WORKERS-2 workers next to the others, one after the other, with 2."""
     from concurrent.futures import ThreadPoolExecutor
     with ThreadPoolExecutor(max_workers=2) as ex:
-        return dict(zip(keys, ex.map(lambda k: vlib.tlc("MCRevocation", cfg_name(k), workers=WORKERS // 2, **kw), keys)))
+        if big is None:
+            return dict(zip(keys, ex.map(lambda k: vlib.tlc("MCRevocation", cfg_name(k), workers=WORKERS // 2, **kw), keys)))
+        fb = ex.submit(lambda: vlib.tlc("MCRevocation", cfg_name(big), workers=WORKERS - 2, **kw))
+        rest = [k for k in keys if k != big]
+        fr = ex.submit(lambda: [vlib.tlc("MCRevocation", cfg_name(k), workers=2, **kw) for k in rest])
+        out = dict(zip(rest, fr.result()))
+        out[big] = fb.result()
+        return out
 
 
 def generate(tier, seed, rnd):
@@ -406,7 +414,7 @@ def run(prop, tier, seed, replay=None):
     fams = ["status", "net", "nodes", "serve", "ext", "alloc"] + ([] if quick else ["mixed", "serve2", "ext2"])
     keys = ["%s.%s" % (fam, "quick" if quick else "thorough") for fam in fams]
     keys.sort(key=lambda k: 0 if k.startswith("status") else 1)     # the big one first
-    runs = tlc_many(keys, timeout=1500, coverage=not quick)
+    runs = tlc_many(keys, big=None if quick else "status.thorough", timeout=1500, coverage=not quick)
     for key in keys:
         m = runs[key]
         if m.error:
